@@ -632,6 +632,25 @@ func (ex *Exec) evalQuant(x EQuant, st *State, env *Env) TV {
 		case SF64, SReal:
 			t = tFloat
 		}
+		if strings.HasPrefix(v.Type, "*") {
+			// typed pointer variable: any reference, viewed as a pointer to the named struct type
+			tn := v.Type[1:]
+			var obj types.Object
+			if i := strings.Index(tn, "."); i >= 0 {
+				for _, pk := range ex.ld.prog.AllPackages() {
+					if pk.Pkg.Name() == tn[:i] && strings.HasPrefix(pk.Pkg.Path(), modPrefix) {
+						obj = pk.Pkg.Scope().Lookup(tn[i+1:])
+					}
+				}
+			} else if env != nil && env.pkg != nil {
+				obj = env.pkg.Scope().Lookup(tn)
+			}
+			if obj == nil {
+				panic(unsupported("spec: unknown type " + tn + " in quantifier"))
+			}
+			ne.vars[v.Name] = TV{PtrV{Kind: pObj, Ref: Term{name, SInt}, Root: obj.Type()}, types.NewPointer(obj.Type())}
+			continue
+		}
 		ne.vars[v.Name] = TV{Sc{Term{name, srt}}, t}
 		_ = ranges
 	}
